@@ -30,6 +30,23 @@ def parse_out(line):
     return res, clients
 
 
+def canon_async_acks(line):
+    """PUBACK and PUBCOMP to a publisher are written by the publish workers, not by the session's own loop: when the same
+    input also makes the broker close that connection (a complete PUBLISH followed by garbage in one write), whether the
+    acknowledgement still gets out is a race inside the implementation. Both answers are compared without the
+    acknowledgements of a connection that is closed in the same step."""
+    if "CLOSED" not in line or " | " not in line:
+        return line
+    res, _, rest = line.partition(" | ")
+
+    def fix(m):
+        pk = m.group(2).split(" ") if m.group(2) else []
+        if "CLOSED" in pk:
+            pk = [x for x in pk if not (x.startswith("puback(") or x.startswith("pubcomp("))]
+        return f"{m.group(1)}:[{' '.join(pk)}]"
+    return res + " | " + re.sub(r"(\S+?):\[([^\]]*)\]", fix, rest)
+
+
 def strip_mid(p):
     p = re.sub(r",m=#\d+\)$", ")", p)
     p = re.sub(r"^pubrel\((#|raw)\d+\)$", "pubrel", p)
@@ -55,6 +72,8 @@ class Scenario:
         self.dirty = False   # gossip pending
         self.now = 0         # the connections' clock (ms): moved by `elapse`
         self.handshakes = {} # connection opened without CONNECT -> deadline for its CONNECT packet
+        self.pushpull = False   # gossip() may replace broadcasts by full-state exchanges
+        self.reuse_cids = False # connect() may re-use the client identifier of a session that has ended
 
     # ---- helpers
     def emit(self, op, expect=None, rule="unexpected-packets"):
@@ -74,6 +93,18 @@ class Scenario:
 
     def gossip(self):
         if self.nn > 1:
+            if self.pushpull and self.rng.random() < 0.3:
+                # every broadcast is lost; the nodes learn of each other's changes from full-state exchanges only
+                for a in range(self.nn):
+                    for b in range(self.nn):
+                        if a != b:
+                            self.ops.append(f"losegossip {a} {b}")
+                for a in range(self.nn):
+                    for b in range(self.nn):
+                        if a != b:
+                            self.emit(f"sync {a} {b}", {}, "unexpected-packets")
+                self.dirty = False
+                return
             self.emit("gossip", {})
             if self.rng.random() < 0.25:
                 # a push/pull exchange re-delivers everything one node knows: on a converged cluster it changes nothing
@@ -110,6 +141,12 @@ class Scenario:
             cand = PREFIX_CID[mount] + str(self.k // 2)
             if not any(v["mount"] == mount and v["cid"] == cand for v in self.clients.values()):
                 cid = cand
+        if not cid and self.reuse_cids and self.rng.random() < 0.5:
+            # a client that comes back: the identifier of a session that has ended (same tenant), not in use now
+            gone = sorted({v["cid"] for v in self.clients.values() if not v["alive"] and v["mount"] == mount} -
+                          {v["cid"] for v in self.clients.values() if v["alive"] and v["mount"] == mount})
+            if gone:
+                cid = self.rng.choice(gone)
         cid = cid or f"id{self.k}"
         spec = "-"
         if will:
@@ -200,10 +237,16 @@ class Scenario:
                 deliv.setdefault(k, []).extend(x)
 
     def end(self, c, how):
-        """how: disconnect | drop"""
+        """how: disconnect | drop | connect-again (a second CONNECT packet inside the session: a protocol violation, the
+        session ends as by a lost connection)"""
         exp, deliv = {}, {}
         self._end_effects(c, how, exp, deliv)
-        self.emit(f"{how} {c}", exp, "session-end")
+        if how == "connect-again":
+            from checks import wirelib
+            v = self.clients[c]
+            self.emit(f"raw {c} {wirelib.connect(v['cid'] if v['cid'] != '0x' else '', user=v['mount']).hex()}", exp, "session-end")
+        else:
+            self.emit(f"{how} {c}", exp, "session-end")
         self.ack_receivers(deliv)
         self.gossip()
 
@@ -278,9 +321,9 @@ def monitor_for(scenarios_exp):
         for i, line in enumerate(impl):
             # MQTT packet identifiers are 1..65535: a pool with more free identifiers than that hands out one that does
             # not fit the wire format (it would be truncated to another delivery's identifier)
-            m = re.match(r"free=(\d+)", line) if ops[i].startswith("pool ") else None
-            if m and int(m.group(1)) > 65535:
-                out.append((i, "identifier-outside-16-bits", f"`{ops[i]}` = {line}: the writer's pool holds {m.group(1)} free identifiers; only 1..65535 exist on the wire"))
+            m = re.match(r"free=(\d+) top=(\d+)", line) if ops[i].startswith("pool ") else None
+            if m and (int(m.group(1)) > 65535 or int(m.group(2)) > 65535):
+                out.append((i, "identifier-outside-16-bits", f"`{ops[i]}` = {line}: the writer's pool can hand out {int(m.group(2)) - 1} ({m.group(1)} identifiers free); only 1..65535 exist on the wire"))
         for i, (exp, rule) in scenarios_exp.items():
             line = impl[i]
             if line.startswith("panic") or line == "<no-output>":
@@ -311,6 +354,8 @@ def monitor_for(scenarios_exp):
 def gen_converged(rng, nn, mounts, nops, weights=None, retain_p=0.3, clear_p=0.3):
     """a random converged scenario; returns Scenario"""
     sc = Scenario(rng, nn, mounts, prefix_names=(mounts > 1 and rng.random() < 0.4))
+    sc.pushpull = rng.random() < 0.4
+    sc.reuse_cids = rng.random() < 0.6
     w = {"connect": 2, "sub": 4, "unsub": 1, "pub": 6, "end": 1, "state": 0.5}
     if weights:
         w.update(weights)
@@ -318,6 +363,7 @@ def gen_converged(rng, nn, mounts, nops, weights=None, retain_p=0.3, clear_p=0.3
         will = rng.choice([None, None, ("w/t", rng.choice(["dead", "00"]) if False else rng.choice(["6465", "00"]), rng.choice([0, 1]), rng.choice([0, 1]))])
         sc.connect(will=will)
     kinds = list(w)
+    hot = rng.choice(["a/b", "a/#", "+/b"])
     for _ in range(nops):
         k = rng.choices(kinds, [w[x] for x in kinds])[0]
         alive = sc.alive()
@@ -328,6 +374,8 @@ def gen_converged(rng, nn, mounts, nops, weights=None, retain_p=0.3, clear_p=0.3
         elif k == "sub":
             c = rng.choice(alive)
             fl = rng.sample(FILTERS, rng.choice([1, 1, 2, 3]))
+            if rng.random() < 0.3:
+                fl = [hot]      # several sessions, on whichever nodes they live, under one and the same filter
             sc.sub(c, [(f, rng.choice([0, 1, 2])) for f in fl])
         elif k == "unsub":
             c = rng.choice(alive)
@@ -341,7 +389,7 @@ def gen_converged(rng, nn, mounts, nops, weights=None, retain_p=0.3, clear_p=0.3
             sc.pub(c, rng.choice(TOPICS), payload, rng.choice([0, 1, 1, 2]), retain, 0)
         elif k == "end":
             if len(alive) > 1:
-                sc.end(rng.choice(alive), rng.choice(["disconnect", "drop"]))
+                sc.end(rng.choice(alive), rng.choice(["disconnect", "drop", "drop", "connect-again"]))
         elif k == "state":
             sc.check_state()
     sc.check_state()
@@ -359,7 +407,7 @@ def run_scenarios(c, name, scenarios, samples, extra_stats=None):
     st = {"cases": len(scenarios), "nontrivial": len(scenarios)}
     if extra_stats:
         st.update(extra_stats)
-    c.run_suite(Suite(name, "broker", ops, monitor_for(exp), st, resets=("reset",), retry_args=["200"]), timeout=900 if c.tier == "quick" else 7200)
+    c.run_suite(Suite(name, "broker", ops, monitor_for(exp), st, resets=("reset",), retry_args=["200"], canon=canon_async_acks), timeout=900 if c.tier == "quick" else 7200)
     samples.append({"suite": name, "ops": ops[:14]})
 
 
@@ -367,6 +415,7 @@ def add_c01_suites(c, samples):
     rng = c.rng
     n = 12 if c.tier == "quick" else 150
     scs = corpus(rng, ["broken-recipient", "alternating-hosts"])
+    scs += [gen_broken_recipient_qos(rng) for _ in range(10 if c.tier == "quick" else 100)]
     scs += [gen_converged(rng, rng.choice([1, 1, 2]), 1, rng.choice([12, 20]), {"pub": 8, "sub": 5, "unsub": 2}) for _ in range(n)]
     run_scenarios(c, "broker-publish-routing", scs, samples)
 
@@ -487,7 +536,7 @@ def gen_faults(rng, nn):
         qos = rng.choice([0, 1, 1, 2])
         sc.mid += 1
         mid = sc.mid
-        payload = "%02x" % (mid % 256)
+        payload = "%02x" % (mid % 256) if rng.random() < 0.8 else ""      # an empty payload is a message like any other
         # destinations = nodes hosting a matching subscription
         dest = sorted({sc.clients[c]["node"] for c in subs if sc.clients[c]["alive"] and any(mqtt_match(f.split("/"), topic.split("/")) for f in sc.clients[c]["subs"])})
         failed = [n for n in dest if n in logfail or (n in down and n != 0)]
@@ -499,7 +548,7 @@ def gen_faults(rng, nn):
                     if mqtt_match(f.split("/"), topic.split("/")):
                         deliv.setdefault(c, []).append(pubstr(topic, payload, q, 0, 0))
         if qos == 2:
-            sc.emit(f"pub {pubr} {topic} {payload} 2 0 0 {mid}", {pubr: [f"pubrec({mid})"]}, "qos2-forwarded-early")
+            sc.emit(f"pub {pubr} {topic} {payload or '-'} 2 0 0 {mid}", {pubr: [f"pubrec({mid})"]}, "qos2-forwarded-early")
             if rng.random() < 0.3:
                 # the client never sends PUBREL: the handshake times out; nothing may be forwarded, now or later
                 sc.emit("expire 0", {}, "qos2-forwarded-on-timeout")
@@ -518,7 +567,7 @@ def gen_faults(rng, nn):
             exp = {k: list(v) for k, v in deliv.items()}
             if qos == 1 and not failed:
                 exp.setdefault(pubr, []).append(f"puback({mid})")
-            sc.emit(f"pub {pubr} {topic} {payload} {qos} 0 0 {mid}", exp, "ack-despite-failed-write" if failed else "delivery")
+            sc.emit(f"pub {pubr} {topic} {payload or '-'} {qos} 0 0 {mid}", exp, "ack-despite-failed-write" if failed else "delivery")
         sc.ack_receivers(deliv)
         for n in range(nn):
             sc.ops.append(f"log {n}")
@@ -531,6 +580,7 @@ def gen_lifecycle(rng, nn, mounts=1, takeover=0.25, fine_gossip=False):
     """connect / subscribe / publish / ping / disconnect / drop / take-over, with gossip either fully delivered after
     every change (oracle applies) or delivered link by link in random order (model comparison only)"""
     sc = Scenario(rng, nn, mounts, prefix_names=(mounts > 1 and not fine_gossip and rng.random() < 0.4))
+    sc.pushpull = (not fine_gossip) and rng.random() < 0.4
     cids = {}
     opaque = False
     for _ in range(rng.choice([6, 10, 16])):
@@ -923,9 +973,72 @@ def gen_reallog(rng, total, nn=1):
     return sc
 
 
+def gen_reallog_stalled_recipient(rng):
+    """one subscriber stops reading for a while (the writer is held up in its write, the scheduler behind it, the log
+    consumer behind that) while a publisher stores more messages than the writer's queue holds: when the subscriber reads
+    again every message reaches every subscriber"""
+    sc = Scenario(rng, 1, 1, real_log=True)
+    p = sc.connect(node=0)
+    slow = sc.connect(node=0)
+    fast = sc.connect(node=0)
+    sc.sub(slow, [("a/#", 0)])
+    sc.sub(fast, [("a/b", 0)])
+    sc.burst(p, "a/b", 1, 0, 3)
+    sc.ops.append(f"stall {slow} {rng.choice([1200, 1500, 1800])}")
+    sc.burst(p, "a/b", 1, 3, rng.choice([40, 60, 90]))
+    sc.burst(p, "a/b", 1, 200, 5)
+    sc.check_state()
+    return sc
+
+
+def add_refused_connect_suite(c, samples):
+    """CONNECT packets the broker refuses AFTER authentication, because an identifier cannot be replicated (client id or
+    user name — the harness' mount point — that is not valid UTF-8: the session record cannot be encoded): nothing of the
+    refused connection stays listed, on any node, and everybody else goes on. These CONNECTs are outside the model (its
+    strings are not byte sequences that can be ill-formed): the suite judges the implementation alone."""
+    from checks import wirelib
+    rng = c.rng
+    ops, exp, cases = [], {}, 0
+    bad = [bytes([0x69, 0xff, 0xfe]), bytes([0xc3, 0x28]), bytes([0xe2, 0x82]), bytes([0xed, 0xa0, 0x80]), bytes([0xf8, 0x88, 0x80, 0x80, 0x80]), bytes([0x80])]
+    for rnd in range(2 if c.tier == "quick" else 12):
+        nn = rng.choice([1, 2])
+        ops.append(f"reset {nn}")
+        ops.append("connect w 0 cw mp 60 -")
+        ops.append("sub w 3 wit:0")
+        if nn > 1:
+            ops.append("gossip")
+        listing = f"[S,Sw,cw,mp,1,-] [U,Sw,mp/wit,1,0] [] [Sw]"
+        for k, b in enumerate(rng.sample(bad, 4)):
+            h = f"h{k}"
+            ops.append(f"open {h} 0")
+            # encode a well-formed CONNECT of the same lengths and patch the ill-formed bytes in
+            if k % 2 == 0:
+                good = wirelib.connect("Q" * len(b), user="mp")
+                pkt = good.replace(b"Q" * len(b), b)
+            else:
+                good = wirelib.connect(f"cid{k}", user="Q" * len(b))
+                pkt = good.replace(b"Q" * len(b), b)
+            ops.append(f"raw {h} {pkt.hex()}")
+            exp[len(ops) - 1] = ({h: ["CLOSED"]}, "refused-connect-not-closed")
+            if nn > 1:
+                ops.append("gossip")
+            for n in range(nn):
+                ops.append(f"state {n}")
+                exp[len(ops) - 1] = (listing if n == 0 else "[S,Sw,cw,mp,1,-] [U,Sw,mp/wit,1,0] [] []", "record-of-refused-connect-listed")
+            ops.append("ping w")
+            exp[len(ops) - 1] = ({"w": ["pingresp"]}, "bystander-disturbed")
+            ops.append(f"pub w wit 0{k} 0 0 0 {20 + k}")
+            exp[len(ops) - 1] = ({"w": [pubstr("wit", f"0{k}", 0, 0, 0)]}, "bystander-disturbed")
+            cases += 1
+    ops.append("bye")
+    c.run_suite(Suite("connect-refused-after-authentication-leaves-no-trace", "broker", ops, monitor_for(exp), {"cases": cases, "nontrivial": cases},
+                      resets=("reset",), retry_args=["200"], compare=False), timeout=900)
+    samples.append({"suite": "connect-refused-after-authentication-leaves-no-trace", "ops": ops[:10]})
+
+
 def add_reallog_suites(c, samples):
     # the first messages a node ever stores, and a history that crosses the first truncation point
-    scs = [gen_reallog(c.rng, 3), gen_reallog(c.rng, 2300), gen_reallog_backlog(c.rng)]
+    scs = [gen_reallog(c.rng, 3), gen_reallog_stalled_recipient(c.rng), gen_reallog(c.rng, 2300), gen_reallog_backlog(c.rng)]
     if c.tier != "quick":
         scs += [gen_reallog(c.rng, 520, nn=2), gen_reallog(c.rng, 4300), gen_reallog(c.rng, 3200, nn=2)]
     run_scenarios(c, "real-commit-log-long-history", scs, samples)
@@ -1289,6 +1402,71 @@ def corpus_displacer_gone_before_ping(rng):
     return sc
 
 
+def gen_broken_recipient_qos(rng):
+    """QoS 1/2 subscribers whose connection is broken (writes fail) while messages fan out: the healthy recipients get
+    every message, now and after the broken sessions are gone and their exchanges have timed out; no identifier is both
+    free and in use (a later delivery to a healthy session is never dropped); at the end every identifier is back"""
+    sc = Scenario(rng, 1, 1)
+    p = sc.connect(node=0)
+    subs = []
+    for k in range(rng.choice([2, 3, 4])):
+        s_ = sc.connect(node=0)
+        sc.sub(s_, [("t", rng.choice([1, 1, 2]))])
+        subs.append(s_)
+    healthy = list(subs)
+    n = 0
+    for rnd in range(rng.choice([2, 3])):
+        # the recipients are served in subscription order: an early subscriber that breaks is followed by healthy ones
+        nv = (rng.choice([1, 1, 2]) if len(healthy) > 2 else 1) if len(healthy) > 1 else 0
+        victims = (healthy[:nv] if rng.random() < 0.6 else rng.sample(healthy, nv)) if nv else []
+        for v in victims:
+            sc.ops.append(f"mute {v} 1")
+            healthy.remove(v)
+        for _ in range(rng.choice([1, 2, 3])):
+            n += 1
+            sc.mid += 1
+            pl = "%02x" % n
+            exp = {p: [f"puback({sc.mid})"]}
+            for h in healthy:
+                exp[h] = [pubstr("t", pl, sc.clients[h]["subs"]["t"], 0, 0)]
+            sc.emit(f"pub {p} t {pl} 1 0 0 {sc.mid}", exp, "delivery")
+            # the healthy ones answer, completely or not at all
+            for h in healthy:
+                if rng.random() < 0.6:
+                    sc.ops.append(f"ackall {h}")
+        for v in victims:
+            how = rng.choice(["drop", "drop", "stay"])
+            if how == "drop":
+                sc.clients[v]["alive"] = False
+                sc.ops.append(f"drop {v}")
+            else:
+                sc.ops.append(f"mute {v} 0")     # the connection recovers: retransmissions reach it again
+                healthy.append(v)
+        if rng.random() < 0.7:
+            sc.ops.append("expire 0")
+            for h in healthy:
+                sc.ops.append(f"ackall {h}")
+    for h in healthy:
+        sc.ops.append(f"ackall {h}")
+    sc.ops.append("expire 0")
+    for h in healthy:
+        sc.ops.append(f"ackall {h}")
+    sc.ops.append("expire 0")
+    for _ in range(3):
+        n += 1
+        sc.mid += 1
+        pl = "%02x" % n
+        exp = {p: [f"puback({sc.mid})"]}
+        for h in healthy:
+            exp[h] = [pubstr("t", pl, sc.clients[h]["subs"]["t"], 0, 0)]
+        sc.emit(f"pub {p} t {pl} 1 0 0 {sc.mid}", exp, "delivery-dropped-for-healthy-session")
+        for h in healthy:
+            sc.ops.append(f"ackall {h}")
+    sc.ops.append("pool 0")
+    sc.exp[len(sc.ops) - 1] = ("free=65535 top=65535", "identifier-leaked-or-doubly-free")
+    return sc
+
+
 def gen_answer_lost(rng):
     """connections on which the broker's writes fail (a peer that is gone but not yet noticed): a packet whose answer the
     packet processor writes itself (SUBACK, UNSUBACK, PUBREC, PINGRESP) ends the session as a lost connection — will
@@ -1542,8 +1720,26 @@ def corpus_unsubscribe_overtakes_subscribe(rng):
     return sc
 
 
+def corpus_returning_client_will(rng):
+    """a client identifier that was used before (its earlier sessions ended, by DISCONNECT and by loss) connects again with
+    a will and is then lost: the will is published — the removed records of its predecessors are nobody's sessions"""
+    sc = Scenario(rng, rng.choice([1, 2]), 1)
+    w = sc.connect(node=0)
+    sc.sub(w, [("w/#", 0)])
+    a = sc.connect(node=sc.nn - 1, cid="idR")
+    sc.end(a, "disconnect")
+    b = sc.connect(node=0, cid="idR", will=("w/b", "62", 0, 0))
+    sc.end(b, "drop")
+    c_ = sc.connect(node=sc.nn - 1, cid="idR", will=("w/c", "63", 0, 0))
+    sc.emit(f"ping {c_}", {c_: ["pingresp"]}, "healthy-session-ended")
+    sc.end(c_, "drop")
+    sc.check_state()
+    return sc
+
+
 def corpus(rng, names):
     table = {"displacer-gone-before-ping": corpus_displacer_gone_before_ping,
+             "returning-client-will": corpus_returning_client_will,
              "alternating-hosts": corpus_alternating_hosts, "retransmit-then-next": corpus_retransmit_then_next,
              "fanout-unacked-retransmit": corpus_fanout_unacked_retransmit,
              "topic-starts-with-mount-name": corpus_topic_starts_with_mount_name,
